@@ -5,6 +5,7 @@ import (
 	"go/ast"
 	"go/token"
 	"go/types"
+	"sort"
 	"strings"
 
 	"golang.org/x/tools/go/ssa"
@@ -185,6 +186,76 @@ func (st *State) checkPost(fr *Frame, res []Val, pos token.Pos) {
 		t := e.evalClause(sc, en)
 		st.oblige("post", label, en.Props, t, pos)
 	}
+	st.checkFrame(fr, c, pos)
+}
+
+// checkFrame: a function that declares a frame ("modifies ..." or "pure") writes nothing outside it. Callers rely on
+// this: at a call site exactly the declared patterns are forgotten.
+func (st *State) checkFrame(fr *Frame, c *Contract, pos token.Pos) {
+	e := st.e
+	if len(c.Modifies) == 0 && !c.Pure {
+		return // no frame declared: callers forget everything
+	}
+	var pats []string
+	for _, m := range e.expandFrames(c.Modifies) {
+		pats = append(pats, strings.TrimPrefix(m, "new:"))
+	}
+	covered := func(name string) bool {
+		// implied by the primary names of the same log: cnt|K covers arg|K|*, res|K|*; clock covers clk, nclk
+		switch {
+		case strings.HasPrefix(name, "G|arg|"), strings.HasPrefix(name, "G|res|"):
+			return true // checked through their counter G|cnt|K
+		case name == "G|clk", name == "G|nclk", name == "G|cnt|rand":
+			return true
+		case strings.HasPrefix(name, "G|cnt|go:"):
+			return true
+		}
+		if strings.HasPrefix(name, "G|cnt|") {
+			kind := strings.TrimPrefix(name, "G|cnt|")
+			for n := range e.contracts {
+				if fn := e.P.Funcs[n]; fn != nil && fn.Name() == kind {
+					return true // the call log of contracted callees is bookkeeping, part of every frame
+				}
+			}
+		}
+		for _, p := range pats {
+			if matchPat(p, name) {
+				return true
+			}
+			// a pattern written by a callee (itself a pattern) is covered if it is at least as narrow
+			if strings.HasSuffix(p, "*") && strings.HasPrefix(name, p[:len(p)-1]) {
+				return true
+			}
+		}
+		return false
+	}
+	bad := map[string]bool{}
+	for name := range st.written {
+		if name == allocName || strings.HasPrefix(name, "G|it|") {
+			continue
+		}
+		if !covered(name) {
+			bad[name] = true
+		}
+	}
+	for _, h := range st.havocked {
+		if !covered(h) {
+			bad[h] = true
+		}
+	}
+	goal := "true"
+	if len(bad) > 0 {
+		goal = "false"
+	}
+	ob := st.oblige("frame", "modifies", e.curProps, goal, pos)
+	if ob != nil {
+		var names []string
+		for n := range bad {
+			names = append(names, n)
+		}
+		sort.Strings(names)
+		ob.Note = "writes outside the declared frame: " + strings.Join(names, " ")
+	}
 }
 
 func bindResults(sc *SpecCtx, sig *types.Signature, res []Val) {
@@ -225,7 +296,13 @@ func (st *State) modularCall(fr *Frame, in ssa.Instruction, fn *ssa.Function, c 
 	st.onModularCall(fr, fn, c, args, pos)
 	preAlloc := st.alloc()
 	st.bumpAlloc()
-	for _, m := range e.expandFrames(c.Modifies) {
+	mods := e.expandFrames(c.Modifies)
+	if len(mods) == 0 && !c.Pure {
+		// the callee declares no frame: everything it could reach may have changed
+		mods = []string{"H|*", "E|*", "M|*", "SM|*", "G|cnt|*", "G|arg|*", "G|res|*", "G|metric", "G|clock", "G|clk", "G|nclk", "G|rand", "G|delok", chanClosedName}
+		e.warn("call of %s: the contract declares no frame (modifies/pure): the caller forgets the whole heap", name)
+	}
+	for _, m := range mods {
 		if m == allocName {
 			continue
 		}
